@@ -59,6 +59,8 @@ type CrashSpec struct {
 	// over MANIFEST, sync directory) every that many milliseconds during the workload
 	ManifestRewrite int `json:"manifest_rewrite,omitempty"`
 	MemTable   int64   `json:"memtable"`
+	// SeparateValueDir puts the value log into <dir>/vdir1 (its own directory lock and directory syncs)
+	SeparateValueDir bool `json:"separate_value_dir,omitempty"`
 }
 
 func (s *CrashSpec) options() badger.Options {
@@ -75,6 +77,10 @@ func (s *CrashSpec) options() badger.Options {
 		o.MemTableSize = s.MemTable
 	}
 	o.ValueLogMaxEntries = 50
+	if s.SeparateValueDir && !o.InMemory {
+		o.ValueDir = filepath.Join(s.Dir, "vdir1")
+		_ = os.MkdirAll(o.ValueDir, 0o755)
+	}
 	return o
 }
 
@@ -330,6 +336,13 @@ func (im *image) materialise(dirs []string, dst string) error {
 	return nil
 }
 
+func imageDirs(opt badger.Options) []string {
+	if opt.ValueDir != "" && opt.ValueDir != opt.Dir {
+		return []string{opt.Dir, opt.ValueDir}
+	}
+	return []string{opt.Dir}
+}
+
 // ChildCrash runs the workload described by the spec file. Exit code 0 = workload ended (EndMode close).
 func ChildCrash(specPath string) int {
 	b, err := os.ReadFile(specPath)
@@ -375,7 +388,7 @@ func ChildCrash(specPath string) int {
 			// freeze: the side-log lock is held so that no acknowledgement can be logged between
 			// taking the image and recording that it was taken
 			sl.mu.Lock()
-			err := im.materialise([]string{opt.Dir}, filepath.Join(s.ImageDir, strconv.FormatInt(n, 10)))
+			err := im.materialise(imageDirs(opt), filepath.Join(s.ImageDir, strconv.FormatInt(n, 10)))
 			msg := fmt.Sprintf("G %d %s\n", n, class)
 			if err != nil {
 				msg = fmt.Sprintf("Gerr %d %v\n", n, err)
@@ -614,7 +627,7 @@ func ChildCrash(specPath string) int {
 		sl.line("CLOSED")
 		if im != nil {
 			sl.mu.Lock()
-			if err := im.materialise([]string{opt.Dir}, filepath.Join(s.ImageDir, "0")); err == nil {
+			if err := im.materialise(imageDirs(opt), filepath.Join(s.ImageDir, "0")); err == nil {
 				_, _ = sl.f.Write([]byte("G 0 after-close\n"))
 			}
 			sl.mu.Unlock()
